@@ -13,9 +13,11 @@ fn mk_mask(vb: &[u8], voff: usize, n: usize, nulls: Option<(&[u8], usize)>) -> B
 
 // Contract (C03): maybe_prep_null_mask_filter(mask) — the mask normalisation every zip path starts
 // with — returns N bits with bit i set <=> mask row i is true and valid ("null mask = falsy side"), for a
-// mask of N rows at bit offsets (6,1) with an optional validity bitmap.
+// mask of N rows at bit offsets (6,1); validity presence is concrete per instance (with a symbolic
+// presence the result buffer is one of two allocations and every later read goes through a symbolic pointer:
+// measured > 400 cpu s at 4 rows).
 macro_rules! zip_mask {
-    ($name:ident, $n:expr) => {
+    ($name:ident, $n:expr, $nulls:expr) => {
         #[kani::proof]
         #[kani::unwind(20)]
         #[kani::stub(alloc::fmt::format, stub_format)]
@@ -24,7 +26,7 @@ macro_rules! zip_mask {
             let vb: [u8; 3] = kani::any();
             let bm: [u8; 3] = kani::any();
             let (voff, boff): (usize, usize) = (6, 1);
-            let with_nulls: bool = kani::any();
+            let with_nulls: bool = $nulls;
             let mask = mk_mask(&vb, voff, N, if with_nulls { Some((&bm[..], boff)) } else { None });
             let r = maybe_prep_null_mask_filter(&mask);
             assert!(r.len() == N);
@@ -37,21 +39,23 @@ macro_rules! zip_mask {
                 i += 1;
             }
             assert!(r.count_set_bits() == c);
-            kani::cover!(with_nulls && mask.null_count() > 0 && c > 0);
-            kani::cover!(!with_nulls && c < N);
+            kani::cover!(!with_nulls || (mask.null_count() > 0 && c > 0));
+            kani::cover!(c < N && c > 0);
             std::mem::forget(mask);
         }
     };
 }
-// @unit name=zip_mask_n4 props=C03 kind=bounded bound=rows=4_bit_offsets=(6,1) fns=maybe_prep_null_mask_filter tier=thorough note=not_confirmed_at_checkpoint
-zip_mask!(zip_mask_n4, 4);
-// @unit name=zip_mask_n12 props=C03 kind=bounded bound=rows=12_bit_offsets=(6,1) fns=maybe_prep_null_mask_filter tier=thorough note=not_confirmed_at_checkpoint
-zip_mask!(zip_mask_n12, 12);
+// @unit name=zip_mask_n4 props=C03 kind=bounded bound=rows=4_no_validity_bit_offset=6 fns=maybe_prep_null_mask_filter tier=thorough
+zip_mask!(zip_mask_n4, 4, false);
+// @unit name=zip_mask_n4_nulls props=C03 kind=bounded bound=rows=4_with_validity_bit_offsets=(6,1) fns=maybe_prep_null_mask_filter tier=quick
+zip_mask!(zip_mask_n4_nulls, 4, true);
+// @unit name=zip_mask_n12_nulls props=C03 kind=bounded bound=rows=12_with_validity_bit_offsets=(6,1) fns=maybe_prep_null_mask_filter tier=quick
+zip_mask!(zip_mask_n12_nulls, 12, true);
 
 // Contract (C03, single attempt): scalar-scalar zip on Int32 — PrimitiveScalarImpl::create_output(mask):
 // row i == truthy if mask row i is true and valid, else falsy; a None side yields a null row. 2 rows.
 // The result is an Arc<dyn Array>; it is inspected through as_any().downcast_ref (dyn dispatch).
-// @unit name=zip_scalar_i32_n2 props=C03 kind=bounded bound=rows=2_both_scalars_optional fns=PrimitiveScalarImpl::create_output tier=thorough timeout=900 mem=10 note=not_confirmed_at_checkpoint
+// @unit name=zip_scalar_i32_n2 props=C03 kind=bounded bound=rows=2_both_scalars_optional fns=PrimitiveScalarImpl::create_output timeout=900 mem=10 tier=thorough note=not_confirmed_not_run
 #[kani::proof]
 #[kani::unwind(8)]
 #[kani::stub(alloc::fmt::format, stub_format)]
